@@ -15,6 +15,8 @@ pub enum BeginOut {
     Success,
     Abort(u8),
     NoReceipt,
+    /// status information with a receipt number, then abort (declined payment): nothing is reserved
+    AbortAfterReceipt(u8),
 }
 #[derive(Serialize, Deserialize, Clone, Copy, Debug, PartialEq)]
 pub enum RevOut {
@@ -117,6 +119,10 @@ pub fn walk(h: &History) -> (Vec<ExpCall>, Vec<PlanEntry>) {
                     }
                     BeginOut::Abort(c) => {
                         plan.push(pe(Kind::Reservation, n_res, Outcome::Abort(c)));
+                        ExpResult::Err
+                    }
+                    BeginOut::AbortAfterReceipt(c) => {
+                        plan.push(pe(Kind::Reservation, n_res, Outcome::AbortAfterStatus(c)));
                         ExpResult::Err
                     }
                 };
@@ -359,6 +365,7 @@ fn alternatives(ntok: usize, outcomes: bool) -> Vec<HOp> {
         if outcomes {
             v.push(HOp::Begin { tok, out: BeginOut::Abort(0x6f) });
             v.push(HOp::Begin { tok, out: BeginOut::NoReceipt });
+            v.push(HOp::Begin { tok, out: BeginOut::AbortAfterReceipt(0x05) });
             v.push(HOp::Commit { tok, amount: 700, out: RevOut::Abort(0xb5) });
             v.push(HOp::Cancel { tok, out: RevOut::Abort(0x64) });
         }
@@ -372,7 +379,7 @@ fn history_strategy() -> impl Strategy<Value = History> {
         1 => "[A-Z0-9]{1,8}",
     ];
     let code = prop_oneof![Just(0xa0u8), Just(0x6c), Just(0xb8), Just(0xfc), Just(0x00), any::<u8>()];
-    let begin_out = prop_oneof![5 => Just(BeginOut::Success), 1 => code.clone().prop_map(BeginOut::Abort), 1 => Just(BeginOut::NoReceipt)];
+    let begin_out = prop_oneof![5 => Just(BeginOut::Success), 1 => code.clone().prop_map(BeginOut::Abort), 1 => Just(BeginOut::NoReceipt), 1 => code.clone().prop_map(BeginOut::AbortAfterReceipt)];
     let rev_out = prop_oneof![5 => Just(RevOut::Completion), 1 => code.clone().prop_map(RevOut::Abort)];
     let step = prop_oneof![
         3 => (0usize..5, begin_out).prop_map(|(tok, out)| HOp::Begin { tok, out }),
